@@ -201,7 +201,7 @@ func (pr *ProtoArray) CanonAtSlot(anchor Root, slot Slot, withBlock bool) (at No
 		return NodeRef{}, err
 	}
 	// The head may be the closest we have.
-	if head.Slot <= slot {
+	if head.Slot < slot {
 		return head, nil
 	}
 	// Walk back the canonical chain, and stop as soon as we find the node at slot of interest.
